@@ -215,8 +215,29 @@ func runC08(c *Ctx, r *Rec) {
 					}
 				}
 			}
+			// the same thing said through the flow graph: the loop is entered only on an edge on
+			// which the two sizes are known to be equal (a single-exit form with a result variable,
+			// an else branch)
+			sizesEqualOnEntry := false
+			if pt, ok := g.locate(loopEntryNode(loops[0])); ok {
+				var atoms []condAtom
+				for _, ec := range g.edgeConds(pt) {
+					atomsOf(ec.cond, ec.polarity, &atoms)
+				}
+				for _, a := range atoms {
+					be, ok := a.e.(*ast.BinaryExpr)
+					if !ok || !((be.Op == token.NEQ && !a.true) || (be.Op == token.EQL && a.true)) {
+						continue
+					}
+					x, y := resolveInit(info, fd, be.X), resolveInit(info, fd, be.Y)
+					if (mir.mirrorEq(x, y) || mir.mirrorEq(y, x)) && strings.Contains(exprStr(x)+exprStr(y), "Len()") {
+						sizesEqualOnEntry = true
+					}
+				}
+			}
 			bad := ""
 			switch {
+			case sizeIf == nil && sizesEqualOnEntry:
 			case sizeIf == nil:
 				bad = "no `if size(first) != size(second) { return false }` before the element loop: a longer second operand whose prefix equals the first compares equal (and a shorter one indexes out of range)"
 			case !g.nodeDominates(sizeIf.Cond, loopEntryNode(loops[0])):
